@@ -66,6 +66,20 @@ type evalErr string
 func (c *EvalCtx) fail(f string, a ...any) { panic(evalErr(fmt.Sprintf(f, a...))) }
 
 // parseType parses the small type language used in ghost declarations, quantifiers and casts.
+// goTypeOf: the Go type meant by a type written in a modifies item (the ghost kinds bool/int name Go's bool/int there)
+func goTypeOf(g *GType) types.Type {
+	if g.Go != nil {
+		return g.Go
+	}
+	switch g.Kind {
+	case "bool":
+		return types.Typ[types.Bool]
+	case "int":
+		return types.Typ[types.Int]
+	}
+	return nil
+}
+
 func (vc *VC) parseType(s string, pkg *types.Package) *GType {
 	s = strings.TrimSpace(s)
 	switch s {
